@@ -15,6 +15,7 @@ import (
 	"strings"
 	"sync"
 	"sync/atomic"
+	"syscall"
 	"time"
 
 	"github.com/Jigsaw-Code/outline-sdk/transport"
@@ -33,9 +34,16 @@ func HaveAddr(ip string) bool {
 	if v, ok := have[ip]; ok {
 		return v
 	}
-	l, err := net.Listen("tcp", net.JoinHostPort(ip, "0"))
-	if err == nil {
-		l.Close()
+	var err error
+	for i := 0; i < 50; i++ {
+		var l net.Listener
+		if l, err = net.Listen("tcp", net.JoinHostPort(ip, fmt.Sprint(NextPort()))); err == nil {
+			l.Close()
+			break
+		}
+		if !errors.Is(err, syscall.EADDRINUSE) {
+			break
+		}
 	}
 	have[ip] = err == nil
 	return err == nil
@@ -69,7 +77,7 @@ type TCPFront struct {
 
 // ServeTCP starts service.StreamServe on ip:0 with this handle function.
 func ServeTCP(ip string, handle service.StreamHandleFunc) (*TCPFront, error) {
-	l, err := net.ListenTCP("tcp", &net.TCPAddr{IP: net.ParseIP(ip)})
+	l, err := ListenTCPLow(&net.TCPAddr{IP: net.ParseIP(ip)})
 	if err != nil {
 		return nil, err
 	}
@@ -123,7 +131,7 @@ func NewTCPTarget(ip string) (*TCPTarget, error) {
 
 // NewTCPTargetAddr listens on a specific address (zone and port included).
 func NewTCPTargetAddr(a *net.TCPAddr) (*TCPTarget, error) {
-	l, err := net.ListenTCP("tcp", a)
+	l, err := ListenTCPLow(a)
 	if err != nil {
 		return nil, err
 	}
@@ -193,13 +201,21 @@ type SideReader struct {
 	done    chan struct{}
 	feed    func([]byte) // optional transformer hook (e.g. decrypt) called under lock
 	changed chan struct{}
+	paused  atomic.Bool // while set, the reader does not read (a slow consumer)
 }
+
+// Pause stops the reader from reading until Resume (data stays in the kernel buffers).
+func (s *SideReader) Pause()  { s.paused.Store(true) }
+func (s *SideReader) Resume() { s.paused.Store(false) }
 
 func NewSideReader(r io.Reader, feed func([]byte)) *SideReader {
 	s := &SideReader{done: make(chan struct{}), feed: feed, changed: make(chan struct{}, 1)}
 	go func() {
 		b := make([]byte, 64<<10)
 		for {
+			for s.paused.Load() {
+				time.Sleep(200 * time.Microsecond)
+			}
 			n, err := r.Read(b)
 			s.mu.Lock()
 			if n > 0 {
@@ -476,4 +492,30 @@ func DialUDPFixed(raddr string) (*net.UDPConn, error) {
 		}
 	}
 	return nil, errors.New("no free local udp port")
+}
+
+// ListenTCPLow listens on a.IP; when a.Port is 0 the port is taken from the range below the ephemeral
+// ports. (Tens of thousands of client sockets in TIME_WAIT can occupy every ephemeral port as far as
+// bind() of a listener is concerned, although connect() can still reuse them.)
+func ListenTCPLow(a *net.TCPAddr) (*net.TCPListener, error) {
+	if a.Port != 0 {
+		return net.ListenTCP("tcp", a)
+	}
+	var err error
+	for i := 0; i < 200; i++ {
+		var l *net.TCPListener
+		if l, err = net.ListenTCP("tcp", &net.TCPAddr{IP: a.IP, Zone: a.Zone, Port: NextPort()}); err == nil {
+			return l, nil
+		}
+		if !errors.Is(err, syscall.EADDRINUSE) {
+			return nil, err
+		}
+	}
+	return nil, err
+}
+
+// EnvNetError reports errors that mean the host ran out of ports or the port was taken meanwhile:
+// environment, never a verdict about the code under test.
+func EnvNetError(err error) bool {
+	return err != nil && (errors.Is(err, syscall.EADDRNOTAVAIL) || errors.Is(err, syscall.EADDRINUSE) || errors.Is(err, syscall.EMFILE) || errors.Is(err, syscall.ENFILE) || errors.Is(err, syscall.ENOBUFS))
 }
